@@ -9,13 +9,18 @@ Correspondence (this file): the REAL `rate_limit` / `delay` nodes run on the vir
 (harness/vloop.py; `streamz.core.time` and tornado's `IOLoop.time` are the virtual clock) with 1-4
 concurrent producers (awaiting `emit` or not, emitting into one source or into separate sources joined
 by `union`), bursts, gaps just below / at / above the interval, long idle gaps, a synchronous or a slow
-(awaitable) downstream.  All instants are exact multiples of 1/1024 s ("ticks"), so every float the
+(awaitable) downstream, and consumers that REJECT some elements (a synchronous sink raising, an awaitable
+consumer failing; un-awaited producers keep the exception in the emit's awaitable).  A rejected element
+went through the limiter like any other: the hand-over instants of ALL elements are compared with the
+model (whose `next` bookkeeping knows nothing of consumer failures) and judged by the oracle.  For delay
+a rejection ends the `cb` coroutine; see ASSUMPTIONS for what C13 still claims there.  All instants are exact multiples of 1/1024 s ("ticks"), so every float the
 code computes is exact.  The observed event sequence (arrivals, deliveries, downstream completions,
 with their instants) is replayed through the Lean event-loop model — every observed event must be an
 enabled action of the model — and the delivery instants are compared EXACTLY with the functional model.
 The model-free oracle evaluates the property statement on the observations alone.
 """
 import asyncio
+import logging
 
 from .. import common, vloop
 
@@ -42,25 +47,76 @@ def cost_of(case, x):
     return costs[x % len(costs)] if costs else 0
 
 
+class Rejected(Exception):
+    """Raised by the harness's consumer for the elements listed in case["fail"]."""
+
+
+class Runaway(KeyboardInterrupt):
+    """Aborts a run whose node hands over without end (possibly inside one loop callback, where the loop's
+    callback budget cannot help).  Derived from KeyboardInterrupt because tornado coroutines and asyncio
+    handles swallow everything else."""
+
+
+def is_slow(case):
+    """Is there an awaitable consumer below the node?"""
+    return any(case.get("costs") or []) or (bool(case.get("fail")) and case.get("fail_mode") == "awaitable")
+
+
 def run_impl(case):
-    """Run the real node.  Returns dict(events=[...], c0=ticks, errors=[...]).
+    """Run the real node.  Returns dict(events=[...], c0=ticks, errors=[...], rejected=[...], loop_rejected=n).
 
     events (in the order they happened):
       ["a", t, x]        producer is about to call emit(x) (== the node's update(x) is entered)
-      ["d", t, x, sync]  the node called its downstream with x; sync = inside the emit(x) call itself
-      ["f", t, x]        slow downstream only: the awaitable for x completed
+      ["d", t, x, sync]  the node handed x to its downstream (recorded BEFORE the consumer accepts or
+                         rejects it, so a failing hand-over is recorded too); sync = inside emit(x) itself
+      ["f", t, x]        awaitable consumer only: the awaitable for x completed successfully
+      ["r", t, x]        the consumer rejected x (raised `Rejected`, synchronously or from its awaitable)
+    rejected      = elements whose emit() awaitable failed with `Rejected`
+    loop_rejected = number of `Rejected` exceptions that ended a loop callback (delay's `cb` coroutine)
+    errors        = any other exception seen by a producer or by the loop
     """
     from streamz import Stream
 
     kind = case["kind"]
     interval = interval_arg(case)
-    slow = any(case.get("costs") or [])
-    events = []
+    slow = is_slow(case)
+    fail = set(case.get("fail") or [])
+    fail_sync = case.get("fail_mode", "sync") == "sync"
     errors = []
+    rejected = []
+    loop_rejected = [0]
     futures = []
+    n_elements = sum(len(p["gaps"]) for p in case["producers"])
+    runaway = []
+
+    class Events(list):
+        """The event log, capped: a node that hands over for ever must not exhaust memory."""
+        def append(self, e):
+            if len(self) < 40 * n_elements + 200:
+                list.append(self, e)
+            elif not runaway:
+                runaway.append("more than %d events for %d elements" % (len(self), n_elements))
+
+    events = Events()
+
+    def note(x, exc):
+        if isinstance(exc, Rejected):
+            rejected.append(x)
+        elif exc is not None:
+            errors.append("emit(%r): %r" % (x, exc))
 
     async def main(loop):
         now = lambda: _ticks(loop.time())  # noqa: E731
+        loop.max_handles = 20000 * (n_elements + 5)    # a correct run needs a few dozen callbacks per element
+
+        def on_loop_exception(_loop, context):
+            exc = context.get("exception")
+            if isinstance(exc, Rejected):
+                loop_rejected[0] += 1
+            else:
+                errors.append("loop: %r %r" % (context.get("message"), exc))
+
+        loop.set_exception_handler(on_loop_exception)
         if case["start"]:
             await asyncio.sleep(case["start"] / TICK)
         nprod = len(case["producers"])
@@ -75,7 +131,12 @@ def run_impl(case):
         in_emit = [None]
 
         def recorder(x):
+            if runaway:
+                raise Runaway()
             events.append(["d", now(), x, in_emit[0] == x])
+            if fail_sync and x in fail:
+                events.append(["r", now(), x])
+                raise Rejected(x)
 
         node.sink(recorder)
         if slow:
@@ -83,6 +144,9 @@ def run_impl(case):
                 c = cost_of(case, x)
                 if c:
                     await asyncio.sleep(c / TICK)
+                if not fail_sync and x in fail:
+                    events.append(["r", now(), x])
+                    raise Rejected(x)
                 events.append(["f", now(), x])
             node.sink(consumer)
         await vloop.settle(loop)          # delay: let `cb` start (its first `last = time()` is c0)
@@ -99,29 +163,72 @@ def run_impl(case):
                 finally:
                     in_emit[0] = None
                 if spec["await"]:
-                    await fut
+                    try:
+                        await fut
+                    except Exception as e:      # noqa: BLE001  (classified by note())
+                        note(x, e)
                 else:
-                    futures.append(fut)
+                    futures.append((x, fut))    # the exception, if any, stays in the emit's awaitable
 
         await asyncio.gather(*[producer(p, spec) for p, spec in enumerate(case["producers"])])
         n = sum(len(s["gaps"]) for s in case["producers"])
         horizon = (n + 2) * (case["interval"] + max(case.get("costs") or [0]) + 1)
         await vloop.advance(horizon / TICK, loop)
-        for f in futures:
-            if f is not None and f.done() and not f.cancelled() and f.exception() is not None:
-                errors.append(repr(f.exception()))
+        for x, f in futures:
+            if f is None:
+                continue
+            if not f.done():
+                if not (kind == "delay" and fail):
+                    errors.append("emit(%r) never completed" % (x,))
+            elif not f.cancelled():
+                note(x, f.exception())
         return c0
 
-    c0 = vloop.run(main)
-    return {"events": events, "c0": c0, "errors": errors}
+    # tornado reports an exception that ends a callback coroutine (delay's `cb`) on its application logger
+    class Catch(logging.Handler):
+        def emit(self, record):
+            exc = record.exc_info[1] if record.exc_info else None
+            if isinstance(exc, Rejected):
+                loop_rejected[0] += 1
+            else:
+                errors.append("log: %s %r" % (record.getMessage(), exc))
+
+    app_log = logging.getLogger("tornado.application")
+    saved = (app_log.propagate, list(app_log.handlers), app_log.level, logging.root.manager.disable)
+    app_log.handlers[:] = [Catch()]
+    app_log.propagate = False
+    app_log.setLevel(logging.ERROR)
+    logging.disable(logging.NOTSET)      # harness/run.py silences logging globally; this one logger is needed
+    c0 = 0
+    try:
+        c0 = vloop.run(main)
+    except Runaway:
+        pass
+    except RuntimeError as e:
+        if "handle budget exhausted" not in str(e):
+            raise
+        runaway.append("the loop ran %s callbacks without finishing" % (20000 * (n_elements + 5),))
+    finally:
+        app_log.propagate, app_log.handlers[:], level, disabled = saved
+        app_log.setLevel(level)
+        logging.disable(disabled)
+    return {"events": list(events), "c0": c0, "errors": errors, "rejected": sorted(rejected),
+            "loop_rejected": loop_rejected[0], "runaway": runaway[:1]}
 
 
 # ------------------------------------------------------------------ model lines
 
 def model_lines(case, obs):
-    """Observed event sequence -> driver input lines."""
+    """Observed event sequence -> driver input lines.
+
+    A consumer failure changes nothing in rate_limit's bookkeeping (each `update` is its own coroutine;
+    `next` was booked before the sleep), so the failing hand-over is an ordinary `deliver`.  For delay the
+    failure ends the `cb` coroutine: in the event-loop model the coroutine simply stays in `emitting`
+    for ever (no `done` action follows the failing hand-over), so nothing is taken from the queue again.
+    """
     kind = case["kind"]
-    slow = any(case.get("costs") or [])
+    slow = is_slow(case)
+    rejected_now = set(e[2] for e in obs["events"] if e[0] == "r")
     lines = [{"op": "reset", "model": kind, "interval": case["interval"], "clock": obs["c0"]}]
     for e in obs["events"]:
         if e[0] == "a":
@@ -132,7 +239,7 @@ def model_lines(case, obs):
                     lines.append({"op": "deliver", "t": e[1], "x": e[2]})
             else:
                 lines.append({"op": "deliver", "t": e[1], "x": e[2]})
-                if not slow:
+                if not slow and e[2] not in rejected_now:
                     # synchronous downstream: `yield self._emit(...)` returns at once
                     lines.append({"op": "done", "t": e[1]})
         elif e[0] == "f" and kind == "delay":
@@ -144,8 +251,17 @@ def model_lines(case, obs):
 # ------------------------------------------------------------------ oracle (model-free)
 
 def oracle(case, obs):
-    """The property statement evaluated on the observations.  Returns list of (signature, text)."""
+    """The property statement evaluated on the observations.  Returns list of (signature, text).
+
+    Hand-overs are ALL calls of the downstream, whether the consumer then accepts or rejects the element:
+    a rejected element went through the limiter like any other and occupies its slot.  For rate_limit the
+    whole statement (spacing, order, none lost, no delay after idle) is evaluated on all of them.  For delay
+    a rejecting consumer ends the node's `cb` coroutine (the code has no recovery), so after the first
+    rejection only the safety half is claimed: the hand-overs so far are a prefix of the arrivals, in
+    order, each once; "none lost at quiescence" is claimed only for runs without a rejection.
+    """
     kind = case["kind"]
+    delay_ended = kind == "delay" and any(e[0] == "r" for e in obs["events"])
     I = case["interval"]
     bad = []
     arrived = []      # elements in arrival order
@@ -179,7 +295,7 @@ def oracle(case, obs):
                 bad.append(("rate_limit:delayed-after-idle",
                             "element %r arrived at %s on a line idle for >= the interval but was delivered at %s"
                             % (x, idle_expect[x], t)))
-    if len(delivered) < len(arrived):
+    if len(delivered) < len(arrived) and not delay_ended:
         bad.append((kind + ":lost", "%d elements arrived, %d delivered at quiescence (missing %r)"
                     % (len(arrived), len(delivered), [x for x in arrived if x not in [y for _, y in delivered]])))
     # keep the first finding per signature
@@ -237,6 +353,12 @@ def gen_case(rng, kind):
             "start": rng.choice([0, 0, 7, 1000]), "producers": producers, "costs": costs}
     if I and (I * 1000) % 1024 == 0 and rng.random() < 0.5:
         case["interval_str"] = "%dms" % (I * 1000 // 1024)     # convert_interval() path (pandas Timedelta)
+    if rng.random() < 0.35:
+        # the consumer rejects one or two elements (never only the very last arrival: what matters is
+        # what happens to the elements around and after the rejected one)
+        ids = [p * 100 + k for p, spec in enumerate(producers) for k in range(len(spec["gaps"]))]
+        case["fail"] = sorted(rng.sample(ids, min(len(ids), rng.choice([1, 1, 2]))))
+        case["fail_mode"] = rng.choice(["sync", "awaitable"])
     return case
 
 
@@ -270,8 +392,20 @@ CORPUS = [
     # interval given as a string (convert_interval): '500ms' = 512 ticks
     dict(C("rate_limit", 512, [P(False, 0, 0, 100, 512, 2000)]), interval_str="500ms"),
     dict(C("delay", 1536, [P(False, 0, 0, 100)]), interval_str="1500ms"),
+    # consumer rejects the second element of a backlog; an arrival after the rejection, while a later-booked
+    # element is still sleeping (a @0, bad @I, c @2I, d arrives at 1.5 I -> @3I)
+    dict(C("rate_limit", 1024, [P(False, 0), P(False, 51), P(False, 102), P(False, 1536)]), fail=[100], fail_mode="sync"),
+    dict(C("rate_limit", 10, [P(False, 0, 1, 1, 13, 0), P(True, 2, 20)]), fail=[1], fail_mode="sync"),
+    # the same with an awaitable consumer that fails after a while (the rejection lands between two slots)
+    dict(C("rate_limit", 10, [P(False, 0, 1, 1, 13, 0)], costs=[4]), fail=[1], fail_mode="awaitable"),
+    dict(C("rate_limit", 10, [P(False, 0, 0, 0, 0, 26, 0)], costs=[0, 13]), fail=[1, 2], fail_mode="awaitable"),
+    # rejected element on an idle line, then a burst
+    dict(C("rate_limit", 8, [P(False, 0, 30, 0, 0), P(False, 31)], topology="union"), fail=[1], fail_mode="sync"),
     # delay: burst, idle coroutine passes the element at once, interval separates iteration starts
     C("delay", 10, [P(False, 0, 0, 0)]),
+    # delay with a rejecting consumer: `cb` ends at the rejected hand-over, the rest stays queued
+    dict(C("delay", 10, [P(False, 0, 0, 0, 40)]), fail=[1], fail_mode="sync"),
+    dict(C("delay", 10, [P(False, 0, 0, 0), P(True, 5, 30)], costs=[3]), fail=[100], fail_mode="awaitable"),
     C("delay", 10, [P(False, 9, 1, 0)]),
     C("delay", 10, [P(False, 0, 0, 0), P(True, 5, 0, 30)], costs=[3]),
     # delay with a downstream slower than the interval
@@ -297,7 +431,16 @@ def check_case(ctx, case, obs, answers):
     n = sum(len(p["gaps"]) for p in case["producers"])
     ctx.count("kind:" + kind)
     ctx.count("producers:%d" % len(case["producers"]))
-    ctx.count("downstream:" + ("slow" if any(case.get("costs") or []) else "sync"))
+    ctx.count("downstream:" + ("slow" if is_slow(case) else "sync"))
+    rejected_now = [e[2] for e in obs["events"] if e[0] == "r"]
+    if case.get("fail"):
+        ctx.count("consumer rejects (%s)" % case.get("fail_mode", "sync"))
+    if kind == "rate_limit" and rejected_now:
+        t_r = min(e[1] for e in obs["events"] if e[0] == "r")
+        booked = {e[2]: e[1] for e in obs["events"] if e[0] == "a"}
+        handed = {e[2]: e[1] for e in obs["events"] if e[0] == "d"}
+        if any(booked[x] <= t_r < handed.get(x, t_r) for x in booked) and any(t > t_r for t in booked.values()):
+            ctx.count("rejection while later-booked elements sleep, then a new arrival")
     if any(p["await"] for p in case["producers"]) and not all(p["await"] for p in case["producers"]):
         ctx.count("mixed awaiting/non-awaiting producers")
     arr_times = [e[1] for e in obs["events"] if e[0] == "a"]
@@ -315,6 +458,10 @@ def check_case(ctx, case, obs, answers):
     ctx.case(case, nontrivial=nontrivial(case, obs))
     if obs["errors"]:
         ctx.failure(kind + ":exception", "emit raised: " + obs["errors"][0], case)
+    if obs.get("runaway"):
+        ctx.failure(kind + ":runaway", "%s(%d ticks) never came to rest: %s" % (kind, I, obs["runaway"][0]), case,
+                    observed={"events": obs["events"][:60]})
+        return
     for sig, text in oracle(case, obs):
         ctx.failure(sig, "%s(%d ticks): %s" % (kind, I, text), case,
                     expected="spacing >= interval, arrival order, every element exactly once, no delay after idle",
@@ -343,8 +490,32 @@ def check_case(ctx, case, obs, answers):
                 ctx.disagreement("rate_limit(%d): element %r arrived at %d: model due %r sync %r, real delivery at %r sync %r; events %r"
                                  % (I, x, ln["t"], a.get("due"), a.get("sync"), dt.get(x), sync.get(x), obs["events"]), case)
                 return
+    # who gets to see the consumer's exception: the producer of that element (rate_limit: `update` is the
+    # coroutine the producer's emit awaits); nobody but the loop for delay (`update` is just `queue.put`)
+    if kind == "rate_limit":
+        want_rej, want_loop = sorted(set(rejected_now)), 0
+    else:
+        want_rej, want_loop = [], (1 if rejected_now else 0)
+    if obs["rejected"] != want_rej or obs["loop_rejected"] != want_loop:
+        ctx.disagreement("%s(%d): consumer rejected %r; emit awaitables that failed %r (expected %r), exceptions ending a loop "
+                         "callback %d (expected %d); events %r" % (kind, I, rejected_now, obs["rejected"], want_rej,
+                                                                 obs["loop_rejected"], want_loop, obs["events"]), case)
+        return
     end = answers[-1]
     want = [[t, x] for t, x in dl]
+    if kind == "delay" and rejected_now:
+        # `cb` ended at the first rejected hand-over: everything that arrived after that element is still queued
+        arrived = [e[2] for e in obs["events"] if e[0] == "a"]
+        want_pending = arrived[len(want):]
+        ok = (end.get("outs") == want and (end.get("plan") or [])[:len(want)] == want and end.get("pending") == want_pending
+              and want and want[-1][1] == rejected_now[0] and len(rejected_now) == 1)
+        if not ok:
+            ctx.disagreement("delay(%d) with a rejecting consumer: real deliveries %r; event-loop model outs %r queue %r; "
+                             "functional model %r; events %r" % (I, want, end.get("outs"), end.get("pending"), end.get("plan"),
+                                                               obs["events"]), case)
+            return
+        ctx.coverage["traces_validated_against_impl"] += 1
+        return
     if end.get("outs") != want or end.get("plan") != want or end.get("pending") != [] or len(want) != n:
         ctx.disagreement("%s(%d): real deliveries %r; event-loop model outs %r pending %r; functional model %r"
                          % (kind, I, want, end.get("outs"), end.get("pending"), end.get("plan")), case)
@@ -358,6 +529,13 @@ ASSUMPTIONS = [
     "reference counting inside rate_limit/delay (_retain_refs/_release_refs) is not modelled (C04)",
     "delay: `interval` separates the starts of the coroutine's loop iterations (the code reads `last` before waiting on the queue), "
     "so an element that finds the coroutine idle is passed on at once; C13 only claims order and count for delay",
+    "hand-over = the node calling its downstream, whether the consumer then accepts or rejects (raises on) the element; a rejected "
+    "element occupies its slot like any other.  rate_limit: the full statement is evaluated on all hand-overs, and the model's `next` "
+    "bookkeeping is unaffected by a consumer failure (the failure reaches only the awaitable of that element's emit)",
+    "delay with a rejecting consumer: the exception ends delay's `cb` coroutine (reported only to the loop's exception handler), nothing "
+    "is handed over afterwards and later arrivals stay queued; modelled as the coroutine staying in `emitting` for ever.  After a rejection "
+    "C13 claims only the safety half for delay (hand-overs so far are a prefix of the arrivals, in order, each once); "
+    "'none lost at quiescence' is claimed for runs without a rejection",
 ]
 
 
@@ -381,7 +559,8 @@ def run(ctx):
         "corpus of boundary cases + seeded generator: interval from {0,1,2,3,5,8,16,100,128,1024,1536} ticks (given as float seconds or as a '...ms' string), 1-4 producers "
         "(each awaiting emit or not; one shared source or separate sources joined by union), 1-6 elements per producer with gaps "
         "drawn per producer style (burst / steady at the interval +-1 / idle gaps / mixed), node created at virtual instant 0, 7 or 1000 ticks, "
-        "synchronous or slow awaitable downstream (cost 0..2*interval per element). Every case runs the real node on the virtual loop, "
+        "synchronous or slow awaitable downstream (cost 0..2*interval per element); in 35% of the cases the consumer rejects (raises on) "
+        "one or two elements, synchronously or from its awaitable, and the hand-over instants of all elements incl. the rejected ones are checked. Every case runs the real node on the virtual loop, "
         "replays the observed events through the Lean event-loop model and diffs delivery instants exactly with the functional model. "
         "Non-trivial: at least one element was held back and at least one passed without delay. Distinct = distinct case JSON.")
 
